@@ -264,6 +264,7 @@ def run(ck):
     ck.require_reach("rejected-401", "rejected-400", "upload-secret-mismatch-rejected",
                      "write-enabler-mismatch-rejected", "legit-upload-finished-after-attacks",
                      "share-byte-search-fires-on-authorized-read",
+                     "write-enabler-mismatch-rejected-for-absent-share-numbers",
                      "stale-secret-rejected-after-abort", "stale-secret-rejected-after-timeout",
                      "reallocated-upload-finished-by-new-uploader")
     ck.require_monitor("current-uploader-accepted")
@@ -381,6 +382,30 @@ def one_case(ck, case_no, case_seed, routes_in_map, covered_routes, auth_familie
             add("mutable_read_test_write", "delete-share", "POST", "/storage/v1/mutable/%s/read-test-write" % sm,
                 [("we", st.WE), ("renew", st.R), ("cancel", st.C)], [CBOR_CT],
                 cbor_dumps({"test-write-vectors": {1: {"test": [], "write": [], "new-length": 0}},
+                            "read-vector": []}), destructive=True)
+            # the slot exists, the vectors name only share numbers it does not hold: a new share in somebody's slot
+            absent = [n for n in range(2, 12) if n not in st.mut]
+            pa = rng.sample(absent, 2)
+            add("mutable_read_test_write", "new-share-in-existing-slot", "POST",
+                "/storage/v1/mutable/%s/read-test-write" % sm,
+                [("we", st.WE), ("renew", st.R), ("cancel", st.C)], [CBOR_CT],
+                cbor_dumps({"test-write-vectors": {pa[0]: {"test": [{"offset": 0, "size": 1, "specimen": b""}],
+                                                           "write": [{"offset": 0, "data": rbytes(rng, 40)}],
+                                                           "new-length": None}},
+                            "read-vector": []}), destructive=True)
+            add("mutable_read_test_write", "two-new-shares-in-existing-slot", "POST",
+                "/storage/v1/mutable/%s/read-test-write" % sm,
+                [("we", st.WE), ("renew", st.R), ("cancel", st.C)], [CBOR_CT],
+                cbor_dumps({"test-write-vectors": {n: {"test": [], "write": [{"offset": 0, "data": rbytes(rng, 30)}],
+                                                       "new-length": None} for n in pa},
+                            "read-vector": [{"offset": 0, "size": 10}]}), destructive=True)
+            add("mutable_read_test_write", "absent-share-first-existing-second", "POST",
+                "/storage/v1/mutable/%s/read-test-write" % sm,
+                [("we", st.WE), ("renew", st.R), ("cancel", st.C)], [CBOR_CT],
+                cbor_dumps({"test-write-vectors": {pa[1]: {"test": [], "write": [{"offset": 0, "data": rbytes(rng, 30)}],
+                                                           "new-length": None},
+                                                   0: {"test": [], "write": [{"offset": 1, "data": rbytes(rng, 9)}],
+                                                       "new-length": None}},
                             "read-vector": []}), destructive=True)
             add("mutable_read_test_write", "new-slot", "POST",
                 "/storage/v1/mutable/%s/read-test-write" % b32si(rbytes(rng, 16)),
@@ -525,6 +550,8 @@ def one_case(ck, case_no, case_seed, routes_in_map, covered_routes, auth_familie
                     r = judged_send("wrong-write-enabler", req, vn, [GOOD[0][1]], shdrs, win)
                     if r.status == "ok" and r.code == 401:
                         ck.hit("write-enabler-mismatch-rejected")
+                        if "new-share" in req["tag"]:
+                            ck.hit("write-enabler-mismatch-rejected-for-absent-share-numbers")
                     ck.case("wrong-write-enabler", key=(req["tag"], vn, rnd, case_no),
                             sample={"request": req["tag"], "variant": vn})
             # (5) legitimate progress between batches
